@@ -27,7 +27,7 @@ REPO = Path(os.environ.get("VERIF_REPO", "/repo"))
 WORK = Path(os.environ.get("VERIF_WORK", str(VERIF / "work")))
 WS = WORK / "ws"
 HARNESS_DIR = VERIF / "harness"
-NJOBS = int(os.environ.get("VERIF_JOBS", "5"))
+NJOBS = int(os.environ.get("VERIF_JOBS", "8"))
 TARGET = WORK / "target"
 MEM_BUDGET_GB = float(os.environ.get("VERIF_MEM_GB", "54"))
 MEM_CAP_GB = {"quick": 10.0, "thorough": 24.0}
@@ -267,7 +267,7 @@ def run_cmd(cmd, cwd, timeout_s, mem_gb, logfile):
 
 
 RE_VER = re.compile(r"VERIFICATION:- (SUCCESSFUL|FAILED)")
-RE_FAILN = re.compile(r"\*\* (\d+) of (\d+) failed")
+RE_FAILN = re.compile(r"\*\* (\d+) of (\d+) failed(?: \((?:(\d+) unreachable)?(?:, )?(?:(\d+) undetermined)?\))?")
 RE_COVER = re.compile(r"\*\* (\d+) of (\d+) cover properties satisfied")
 RE_TIME = re.compile(r"Verification Time: ([\d.]+)s")
 RE_FAILED = re.compile(r"^Failed Checks: (.*)$", re.M)
@@ -276,7 +276,7 @@ RE_CHECK = re.compile(
 
 
 def parse_kani(out):
-    r = {"verdict": None, "checks": 0, "failed": 0, "covers": None, "covers_sat": None,
+    r = {"verdict": None, "checks": 0, "failed": 0, "unreachable": 0, "undetermined": 0, "covers": None, "covers_sat": None,
          "solver_s": None, "failed_checks": [], "cover_results": [], "problems": []}
     m = RE_VER.search(out)
     if m:
@@ -284,6 +284,8 @@ def parse_kani(out):
     m = RE_FAILN.search(out)
     if m:
         r["failed"], r["checks"] = int(m.group(1)), int(m.group(2))
+        r["unreachable"] = int(m.group(3) or 0)
+        r["undetermined"] = int(m.group(4) or 0)
     m = RE_COVER.search(out)
     if m:
         r["covers_sat"], r["covers"] = int(m.group(1)), int(m.group(2))
@@ -437,12 +439,19 @@ def run_group(hs, tier, logdir):
 RE_TEST = re.compile(r"(/// Test generated for harness.*?\n(?:///.*\n)*\s*#\[test\]\nfn (kani_concrete_playback_\w+)\(\) \{.*?\n\})", re.S)
 
 
-def _gen_playback(h, logdir, sliced):
+def _gen_playback(h, logdir, sliced, prop_ids=()):
     extra = ["-Z", "concrete-playback", "--concrete-playback=print"]
+    cb = []
     if sliced:
         # Kani drops --slice-formula in playback mode; with big arrays (C17's 64 KiB slot) the
-        # unsliced query runs out of memory, so the sliced trace is tried first.
-        extra += ["--cbmc-args", "--slice-formula"]
+        # unsliced query runs out of memory, so a sliced trace is the fallback.
+        cb += ["--slice-formula"]
+    if prop_ids and all(".assertion." in p or ".cover." in p for p in prop_ids) and not sliced:
+        # the failed checks are assertions of the code or the harness: drop CBMC's own pointer /
+        # bounds instrumentation for the trace run, the unsliced query then stays small
+        extra += ["--no-default-checks", "--no-assertion-reach-checks"]
+    if cb:
+        extra += ["--cbmc-args", *cb]
     with BuildLock() as tdir:
         status, out, rc, _ = run_cmd(
             kani_cmd(h, tdir, extra), WS, min(h.cap * 2, 1500), MEM_CAP_GB["thorough"],
@@ -475,7 +484,13 @@ def _gen_playback(h, logdir, sliced):
     # Kani names tests by a hash of their values: an assertion test equal to a cover test is
     # emitted once, under the cover's label. Keep all, assertion tests first.
     tests.sort(key=lambda t: t[1].startswith("cover:"))
-    return tests[:6]
+    # the same value vector is printed once per check it witnesses: one test per name
+    seen, uniq = set(), []
+    for t in tests:
+        if t[0] not in seen:
+            seen.add(t[0])
+            uniq.append(t)
+    return uniq[:6]
 
 
 def _native_reproduces(output, desc, failed_descs=()):
@@ -490,7 +505,7 @@ def _native_reproduces(output, desc, failed_descs=()):
 def _native_reproduces_one(output, desc):
     if "panicked at" not in output or "test result: FAILED" not in output:
         return False
-    if "Not enough det vals found" in output or "bytes instead of" in output:
+    if "Not enough det vals found" in output or "bytes instead of" in output or "det vals vec" in output:
         return False  # input vector misaligned: not a reproduction
     if "kani::assume should always hold" in output:
         return False
@@ -511,8 +526,9 @@ def replay_counterexample(h, prop, res, logdir, known_descs=()):
               f"// failed checks reported by CBMC:"]
     header += [f"//   {fc['desc']} @ {fc['loc']}" for fc in res["failed_checks"]]
     all_details = []
-    for sliced in (True, False):
-        tests = _gen_playback(h, logdir, sliced)
+    fail_ids = [fc["check"] for fc in res["failed_checks"] if not any(re.search(k, fc["desc"]) for k in known_descs)][:4]
+    for sliced in (False, True):
+        tests = _gen_playback(h, logdir, sliced, fail_ids)
         tests = [t for t in tests if not any(re.search(k, t[1]) for k in known_descs)]
         if not tests:
             all_details.append(f"{'sliced' if sliced else 'full'} trace: no playback test generated")
@@ -617,6 +633,17 @@ def check_property(prop, tier, seed, only=None, jobs=None):
     results = []
     if needed_missing:
         log(f"INCONCLUSIVE property={prop}: cannot attach, missing in /repo: {needed_missing}")
+    guard_fail = False
+    if prop == "C02":
+        # coverage guard: every accessor of the view types is named by the repository's exerciser
+        # list or by the C02 harness file (lib/c02_scan.py)
+        sys.path.insert(0, str(VERIF / "lib"))
+        import c02_scan
+        names, unexercised = c02_scan.scan(WS)
+        log(f"[C02] accessor guard: {len(names)} accessors of the view types, not exercised: {unexercised}")
+        if unexercised:
+            guard_fail = True
+            log(f"INCONCLUSIVE property=C02: accessors not exercised by any harness: {unexercised}")
     run_list = [h for h in mine if h.attach not in missing]
     groups = {}
     for h in run_list:
@@ -631,7 +658,7 @@ def check_property(prop, tier, seed, only=None, jobs=None):
                 log(f"[{prop}] {h.name}: {res['outcome']} checks={res['checks']} failed={res['failed']} "
                     f"covers={res['covers_sat']}/{res['covers']} solver={res['solver_s']}s "
                     f"rss={res['peak_rss_gb']}GB {res.get('reason', '')}")
-    exit_code = 0
+    exit_code = 2 if (guard_fail or needed_missing) else 0
     violations = 0
     known_lines = []
     for res in results:
@@ -684,6 +711,7 @@ def write_evidence(prop, tier, seed, results, missing, wall, violations, known_l
     fns, stubs, bounds = [], [], []
     discharged = 0
     queries = 0
+    nontrivial = 0
     solver = 0.0
     for r in results:
         h = r["harness"]
@@ -692,6 +720,9 @@ def write_evidence(prop, tier, seed, results, missing, wall, violations, known_l
         nonvac = r["outcome"] in ("pass", "known") and (r["covers"] is None or r["covers_sat"] == r["covers"])
         if nonvac:
             discharged += 1
+        if r["outcome"] in ("pass", "known", "fail"):
+            # obligations that are reachable in the encoded program and were decided
+            nontrivial += max(0, r["checks"] - r.get("unreachable", 0) - r.get("undetermined", 0)) + (r["covers_sat"] or 0)
         samples.append({
             "harness": h.name, "crate": h.crate, "attached_to": h.attach, "outcome": r["outcome"],
             "bound": h.bound, "unwind": h.unwind, "functions_encoded": h.fns, "stubs": h.stubs,
@@ -711,12 +742,14 @@ def write_evidence(prop, tier, seed, results, missing, wall, violations, known_l
         "property_id": prop, "tier": tier, "seed": seed, "level": "model_checking",
         "coverage": {
             "evaluations": max(queries, 1),
-            "distinct_nontrivial": discharged,
-            "rule": ("evaluations = CBMC properties (assertions, automatic safety checks, unwinding assertions, "
-                     "cover witnesses) decided by the SAT back end over the compiled real code, summed over the "
-                     "harnesses of this run; distinct_nontrivial = harnesses whose verdict was reached with every "
-                     "kani::cover! vacuity witness SATISFIED (each harness is one distinct symbolic query family "
-                     "covering all inputs inside its stated bound)"),
+            "distinct_nontrivial": nontrivial,
+            "rule": ("evaluations = proof obligations (assertions of the code and the harness, automatic safety "
+                     "checks, unwinding assertions, cover witnesses) that CBMC generated from the compiled real "
+                     "code, summed over the harnesses of this run, each decided by the SAT back end over all "
+                     "inputs inside the harness's bound; distinct_nontrivial = those of them that are reachable "
+                     "in the encoded program (not reported UNREACHABLE/UNDETERMINED) and were decided, plus "
+                     "satisfied cover witnesses, counted from CBMC's result lists of harnesses that reached a "
+                     "verdict; harnesses_discharged = harnesses that passed with every vacuity witness SATISFIED"),
             "samples": samples,
             "harnesses_run": len(results),
             "harnesses_discharged": discharged,
